@@ -1,12 +1,12 @@
 SPECIFICATION Spec
 CONSTANTS
-  K = 3
+  K = 1
   T = 2
   Deviations = {}
-  WithInvalid = FALSE
+  WithInvalid = TRUE
   TrackWant = TRUE
-  WithHistory = TRUE
-  MaxDepth = 4
+  WithHistory = FALSE
+  MaxDepth = 0
 VIEW vw
 CONSTRAINT Depth
 CHECK_DEADLOCK FALSE
